@@ -55,6 +55,7 @@ def short (b : Bytes) : String := Mv.toHex ((Mv.Blake3.hash b).take 8)
 def showErr : Err → String
   | .tooLarge => "too-large" | .pastData => "past-data" | .pastFile => "past-file" | .decode => "decode"
   | .canonLen => "canon-len" | .noChildren => "no-children" | .manifestLen => "manifest-len" | .orphan => "orphan"
+  | .checksum => "checksum"
 
 def showRead : Except Err Bytes → String
   | .ok b => s!"ok:{b.length}:{if b.isEmpty then "E" else short b}"
@@ -74,12 +75,14 @@ def showOut : Out → String
   | .ok => "ok"
   | .err e => s!"err {showErr e}"
 
+def H : Bytes → Bytes := Mv.Blake3.hash
+
 /-- `id,off,len,enc,canonLen,checksum16,role,parent,chunkIndex,manifest,search,mime,canon,blob` -/
 def showFrame (c : Codec) (s : Store) (f : Frame) : String :=
   ",".intercalate
     [toString f.id, toString (if f.len = 0 then 0 else f.off), toString f.len, showEnc f.enc, toString f.canonLen,
      Mv.toHex (f.checksum.take 8), showRole f.role, showOpt f.parent, showOpt f.chunkIndex, showOpt f.manifest,
-     showTri "t" "e" f.search, showTri "t" "b" f.mime, showRead (canonicalBytes c s f), showRead (blobReader c s f)]
+     showTri "t" "e" f.search, showTri "t" "b" f.mime, showRead (canonicalBytes c H s f), showRead (blobReader c H s f)]
 
 def showObs (c : Codec) (s : Store) : String :=
   s!"pe={s.payloadEnd} de={s.dataEnd} | " ++
@@ -103,7 +106,6 @@ def showPending (pend : List (Nat × Entry)) : String :=
 
 def EARLY : Bool := Mv.Gen.C07.DATA_END_ADVANCED_EARLY
 
-def H : Bytes → Bytes := Mv.Blake3.hash
 
 def drvStep (d : DState) (ws : List String) : DState × String :=
   match ws with
